@@ -11,6 +11,9 @@ Decides the representation-invariant discipline of TestCase and the length guard
  * crossover installs an offspring only if the size of the finished offspring is below the
    configured maximum (the guard reads the size after the last change), and the insertion loops
    re-test the size before every insertion.
+ * _find_variable_of_type, interpreted over representative test cases for every position, offers
+   exactly the matching variables bound before the position; the factory never consults the
+   whole-test-case type registry.
 Def-before-use after arbitrary operator histories (cursor arithmetic of the recursive emitters) is
 not decided.
 """
